@@ -44,6 +44,8 @@ def run(ctx):
     F.run_configs(ctx, PID, configs(ctx))
     F.run_recorded(ctx, PID, "random-wide", 60 if ctx.quick else 3000, 40 if ctx.quick else 60, F.NONDAMAGE + F.SPEDITS + ["move", "clone", "stray"])
     F.large_workspace(ctx, PID)
+    from .. import ctxfront
+    ctxfront.run(ctx, PID)
     F.cli_front(ctx, PID)
     ctx.cov["binding_selftest"] = F.selftest(ctx, PID)
 
